@@ -134,6 +134,35 @@ fn main() {
                 _ => println!("T-REPLAY-PASS {name} tables={}", describe(&t)),
             }
         }
+        Some("deep") => {
+            // tenum deep <schema> <twin> <open> <mid> <close> [k ...]: inputs open^k mid close^k; both real parsers must accept the whole
+            // text and agree (deep nesting is far outside the enumeration bound; a fixed family, not exhaustive)
+            let (name, twin) = (args[2].clone(), args[3].clone());
+            let (open, mid, close) = (args[4].clone(), args[5].clone(), args[6].clone());
+            let ks: Vec<usize> = if args.len() > 7 { args[7..].iter().map(|s| s.parse().unwrap()).collect() } else { vec![1, 2, 3, 10, 50, 100, 127, 128, 129, 200, 255, 256, 257, 300, 500, 1000, 2000] };
+            let h = std::thread::Builder::new().stack_size(1 << 30).spawn(move || {
+                let mut bad = false;
+                for k in ks {
+                    let input = format!("{}{}{}", open.repeat(k), mid, close.repeat(k));
+                    let a = real_str_obs(&name, &input);
+                    let b = real_str_obs(&twin, &input);
+                    let whole = |o: &Obs| o.ok && o.end == input.len();
+                    if whole(&a) != whole(&b) || a.ok != b.ok || (a.ok && a.end != b.end) {
+                        bad = true;
+                        println!("T-DEEP-DIFF {name} twin={twin} k={k} schema: ok={} end={} twin: ok={} end={}", a.ok, a.end, b.ok, b.end);
+                    } else if !whole(&a) {
+                        bad = true;
+                        println!("T-DEEP-REJECT {name} twin={twin} k={k} both parsers reject the nested text (ok={} end={} of {})", a.ok, a.end, input.len());
+                    }
+                }
+                bad
+            }).unwrap();
+            match h.join() {
+                Ok(false) => println!("T-DEEP-PASS {} twin={}", args[2], args[3]),
+                Ok(true) => { println!("T-DEEP-DONE {} twin={}", args[2], args[3]); std::process::exit(1); }
+                Err(_) => { println!("T-DEEP-DIFF {} twin={} k=? one of the parsers panicked", args[2], args[3]); std::process::exit(1); }
+            }
+        }
         _ => { eprintln!("usage: tenum list | enumerate <schema> [n] | replay <schema> k=v.."); std::process::exit(2); }
     }
 }
